@@ -1820,8 +1820,7 @@ func (c *Ctx) unop(s *State, fr *Frame, x *ssa.UnOp) []*State {
 		} else if iv, ok := v.(IfaceV); ok {
 			if g, isG := x.X.(*ssa.Global); isG && g.Pkg != nil && !strings.HasPrefix(g.Pkg.Pkg.Path(), c.eng.modPath) || isG && isErrVarName(g.Name()) {
 				// package-level error variables (io.EOF, ErrXxx) are initialised once and never nil
-				c.assumptions["package-level error variables (io.EOF, Err*) are non-nil and never reassigned"] = true
-				c.assume(s, fmt.Sprintf("(not (= %s 0))", iv.Tag))
+				c.errVarFacts(s, g, iv)
 			}
 		}
 		fr.regs[x] = v
@@ -2829,4 +2828,14 @@ func (c *Ctx) checkCallers(s *State, want string) {
 			}
 		}
 	}
+}
+
+// errVarFacts: what is assumed about the value of a package-level error variable (io.EOF, Err*).
+func (c *Ctx) errVarFacts(s *State, g *ssa.Global, iv IfaceV) {
+	c.assumptions["package-level error variables (io.EOF, Err*) are non-nil, never reassigned, and each holds its own value (created once at package initialisation): distinct variables compare unequal, and unequal to any error created later"] = true
+	c.assume(s, fmt.Sprintf("(not (= %s 0))", iv.Tag))
+	// identity: the value of the variable is a constant object of its own, older than anything this function allocates
+	idc := "errvar!" + sanitize(g.Pkg.Pkg.Path()+"."+g.Name())
+	c.declGlobal("errvar:"+idc, fmt.Sprintf("(declare-const %s Int)\n(assert (= %s (- 0 %d)))", idc, idc, 1000000+c.eng.errVarID(g)))
+	c.assume(s, fmt.Sprintf("(= %s (mkobj %s))", iv.PRef, idc))
 }
